@@ -2,7 +2,7 @@
    (Gen_UIntMath.v, Gen_MemPoolConst.v, Gen_MemPool.v are regenerated from /repo's headers on every run). *)
 From Coq Require Import ZArith List Bool Lia.
 From MomoCommon Require Import GenPrelude.
-From C09 Require Gen_UIntMath Gen_MemPoolConst Gen_MemPool PoolLayout.
+From C09 Require Gen_UIntMath Gen_MemPoolConst Gen_MemPool Gen_MemPoolData PoolLayout.
 Import ListNotations.
 Local Open Scope Z_scope.
 
@@ -722,3 +722,71 @@ Definition check_params_prefix (C B A : Z) : bool :=
 Lemma check_params_prefix_refuted :
   exists C B A, check_params_prefix C B A = true /\ Gen_MemPool.pvGetBufferSize C B A < C * B.
 Proof. exists 127, 145249953336295682, 1. vm_compute. split; reflexivity. Qed.
+
+(* ---- MemPoolConst::GetBlockAlignment (generated from the recursive constexpr function as a fuelled Fixpoint) ----
+   For a power-of-two maxAlignment 2^k (k <= 63; the library default is alignof(max_align_t)) and ANY block size, the generated
+   function terminates within its fuel (65) and returns the LARGEST power of two that is <= maxAlignment and <= max(blockSize, 1). *)
+Lemma gba_rec_spec : forall bs k fuel, 0 <= bs -> (k < fuel)%nat ->
+  exists i, (i <= k)%nat /\ Gen_MemPoolConst.GetBlockAlignment_rec fuel bs (2 ^ Z.of_nat k) = Ok (2 ^ Z.of_nat i)
+    /\ (2 ^ Z.of_nat i <= bs \/ i = O) /\ (i = k \/ bs < 2 ^ (Z.of_nat i + 1)).
+Proof.
+  intros bs k. induction k as [|k IH]; intros fuel Hbs Hf.
+  - destruct fuel as [|fuel]; [lia|]. exists O. cbn [Gen_MemPoolConst.GetBlockAlignment_rec].
+    change (2 ^ Z.of_nat 0) with 1. rewrite andb_false_r. repeat split; auto; lia.
+  - destruct fuel as [|fuel]; [lia|]. cbn [Gen_MemPoolConst.GetBlockAlignment_rec].
+    assert (2 ^ Z.of_nat (S k) = 2 * 2 ^ Z.of_nat k) as Hp by (rewrite Nat2Z.inj_succ, Z.pow_succ_r by lia; reflexivity).
+    assert (0 < 2 ^ Z.of_nat k) as Hpos by (apply Z.pow_pos_nonneg; lia).
+    rewrite !Z.gtb_ltb. destruct (Z.ltb_spec bs (2 ^ Z.of_nat (S k))) as [Hlt|Hge].
+    + assert ((1 <? 2 ^ Z.of_nat (S k)) = true) as -> by (apply Z.ltb_lt; lia). cbv iota. rewrite andb_true_l.
+      replace (2 ^ Z.of_nat (S k) / 2) with (2 ^ Z.of_nat k) by (rewrite Hp, Z.mul_comm, Z.div_mul by lia; reflexivity).
+      destruct (IH fuel Hbs ltac:(lia)) as (i & Hi & He & Hle & Hmax). exists i. split; [lia|]. split; [exact He|]. split; [exact Hle|].
+      right. destruct Hmax as [->|Hm]; [|exact Hm]. replace (Z.of_nat k + 1) with (Z.of_nat (S k)) by lia. exact Hlt.
+    + rewrite andb_false_l. exists (S k). repeat split; auto; lia.
+Qed.
+
+Theorem get_block_alignment_spec : forall bs k, 0 <= bs -> (k <= 63)%nat ->
+  exists i, (i <= k)%nat /\ Gen_MemPoolConst.GetBlockAlignment bs (2 ^ Z.of_nat k) = Ok (2 ^ Z.of_nat i)
+    /\ (2 ^ Z.of_nat i <= bs \/ i = O) /\ (i = k \/ bs < 2 ^ (Z.of_nat i + 1)).
+Proof.
+  intros bs k Hbs Hk. unfold Gen_MemPoolConst.GetBlockAlignment. apply gba_rec_spec; [exact Hbs|].
+  change (Z.to_nat 65) with 65%nat. lia.
+Qed.
+
+(* with the library default maxAlignment 16 the result is accepted by CheckBlockAlignment, and the constructor
+   MemPoolParams(blockSize) = MemPoolParams(blockSize, GetBlockAlignment(blockSize)) yields parameters accepted by pvCheckParams
+   (for every block count and every block size that is not astronomically large) *)
+Theorem default_alignment_params_ok : forall C bs, 1 <= C <= 127 -> 0 <= bs <= 2 ^ 48 ->
+  exists a, Gen_MemPoolConst.GetBlockAlignment bs 16 = Ok a /\ (a = 1 \/ a = 2 \/ a = 4 \/ a = 8 \/ a = 16) /\ (a <= bs \/ a = 1)
+    /\ Gen_MemPoolConst.CheckBlockAlignment a = true
+    /\ PoolLayout.check_params C (Gen_MemPoolConst.CorrectBlockSize bs a C) a = true.
+Proof.
+  intros C bs HC Hbs. destruct (get_block_alignment_spec bs 4 ltac:(lia) ltac:(lia)) as (i & Hi & He & Hle & _).
+  change (2 ^ Z.of_nat 4) with 16 in He. exists (2 ^ Z.of_nat i). split; [exact He|].
+  assert (i = 0 \/ i = 1 \/ i = 2 \/ i = 3 \/ i = 4)%nat as Hc by lia.
+  assert (1 <= 2 ^ Z.of_nat i <= 1024) as Hr by (destruct Hc as [->|[->|[->|[->| ->]]]]; cbn; lia).
+  split; [destruct Hc as [->|[->|[->|[->| ->]]]]; cbn; tauto|].
+  split; [destruct Hle as [Hle| ->]; [left; exact Hle|right; reflexivity]|].
+  split; [unfold Gen_MemPoolConst.CheckBlockAlignment; apply andb_true_intro; split; [apply Z.ltb_lt|apply Z.leb_le]; lia|].
+  apply params_corrected_ok; assumption.
+Qed.
+
+(* ---- MemPool::Data::Swap (GENERATED, Gen_MemPoolData.v): the memory manager sub-object and allocCount of the two pools change
+   places - also when the managers do not compare equal (the buffers change places in MemPool::Swap, PoolConc.Swap) ---- *)
+Lemma data_swap_spec m a dm da : Gen_MemPoolData.Swap m a dm da = (dm, da, m, a).
+Proof. reflexivity. Qed.
+
+(* consequence for "every buffer goes back through the manager that allocated it": if every buffer of each pool was obtained from
+   that pool's manager, then after Swap (buffer lists exchanged, Data exchanged by the generated function) this still holds;
+   exchanging the buffer lists WITHOUT the managers (the shape a Swap that skips Data::Swap's three manager moves would have) breaks
+   it as soon as the managers differ and a buffer exists *)
+Definition owned_by (mgr : Z) (bufs : list Z) (owner : Z -> Z) : Prop := forall b, In b bufs -> owner b = mgr.
+Theorem data_swap_keeps_owner m a dm da l dl owner :
+  owned_by m l owner -> owned_by dm dl owner ->
+  let '(m', _, dm', _) := Gen_MemPoolData.Swap m a dm da in owned_by m' dl owner /\ owned_by dm' l owner.
+Proof. intros H1 H2. rewrite data_swap_spec. split; assumption. Qed.
+Lemma swap_without_managers_refuted :
+  exists m dm l dl owner, owned_by m l owner /\ owned_by dm dl owner /\ ~ (owned_by m dl owner /\ owned_by dm l owner).
+Proof.
+  exists 1, 2, [10], [], (fun _ => 1). split; [intros b _; reflexivity|]. split; [intros b []|].
+  intros (_ & H). specialize (H 10 (or_introl eq_refl)). discriminate.
+Qed.
